@@ -33,7 +33,12 @@ class Transform:
     """how run B relates to run A: per-aircraft maps for vectors / points, a factor table for scalars (default: invariant)"""
 
     def __init__(self, vec=None, scalar=None, index=None, name="T"):
-        self.vec = vec or (lambda x, k: x)         # k = aircraft index of the row
+        v = vec or (lambda x, k: x)                 # k = aircraft index of the row; a third parameter receives the attribute name
+        try:
+            nargs = v.__code__.co_argcount
+        except AttributeError:
+            nargs = 2
+        self.vec = v if nargs >= 3 else (lambda x, k, attr, _v=v: _v(x, k))
         self.scalar = scalar or (lambda x, attr, k: x)
         self.index = index                          # optional row permutation: row i of B corresponds to row index(i) of A
         self.name = name
@@ -78,14 +83,14 @@ class Twin:
             out = np.empty(a.shape, dtype=object)
             for i in range(a.shape[0]):
                 src = idx(i) if idx else i
-                out[i] = self.T.vec(a[src], rk[i])
+                out[i] = self.T.vec(a[src], rk[i], attr)
             return out.view(SA)
         if kind == "vec2":
             out = np.empty(a.shape, dtype=object)
             for i in range(a.shape[0]):
                 for j in range(a.shape[1]):
                     si, sj = (idx(i), idx(j)) if idx else (i, j)
-                    out[i, j] = self.T.vec2(a[si, sj], attr, rk[i], rk[j]) if hasattr(self.T, "vec2") else self.T.vec(a[si, sj], rk[i])
+                    out[i, j] = self.T.vec2(a[si, sj], attr, rk[i], rk[j]) if hasattr(self.T, "vec2") else self.T.vec(a[si, sj], rk[i], attr)
             return out.view(SA)
         raise KeyError(kind)
 
@@ -146,12 +151,15 @@ class Twin:
             return
         al = Aligner(c, facts=list(c.assumptions) + list(self.align_facts), rules=self.rules, timeout_ms=self.align_timeout_ms)
         n0 = len(al.facts)
-        al.lockstep(evA, evB)
+        if getattr(self, "search_align", False):
+            al.search(evA, evB, by_site=getattr(self, 'search_by_site', True))          # rows are permuted between the runs: partner by function, creation site and variables
+        else:
+            al.lockstep(evA, evB)
         self.align_facts.extend(al.facts[n0:])
         self.stats["aligned"] += al.aligned
         self.stats["unmatched"] += len(al.unmatched)
         self.stats["align_queries"] += al.queries
-        self.unmatched.extend(al.unmatched[:5])
+        self.unmatched.extend(al.unmatched[:12])
 
     @property
     def defs_raw(self):
